@@ -51,6 +51,7 @@ type Contract struct {
 	Invariant    map[int][]*Clause
 	Modifies     []string // location expressions (Go text)
 	ModSet       bool     // a modifies clause is present (possibly empty = modifies nothing)
+	ModAll       bool     // modifies *: the callee may change anything reachable
 	Line         int
 	File         string
 	Notes        []string
@@ -213,7 +214,9 @@ func ParseContractFile(pkgKey, path string) ([]*Contract, error) {
 				Binder: binders, Line: it.line, N: len(cur.Invariant[k])})
 		case "modifies":
 			cur.ModSet = true
-			if rest != "" && rest != "nothing" {
+			if rest == "*" {
+				cur.ModAll = true
+			} else if rest != "" && rest != "nothing" {
 				for _, l := range splitTop(rest, ",") {
 					cur.Modifies = append(cur.Modifies, strings.TrimSpace(l))
 				}
